@@ -9,8 +9,8 @@ Import ListNotations.
 
 (* Obligation 1 (table tie, drift detector): the code that decides file and line of a diagnostic
    (Span::zero, Context::peek/span/token/skip, syntax_error!/raise_syntax_error!/expect!,
-   find_conflict_markers, tree, outer_statement, extract_namespaces, error!/resolution_error!/type_error!,
-   span_file) as re-read from /repo on this run is the reviewed text. *)
+   push_skip_newlines, the head of `statement`, find_conflict_markers, tree, outer_statement,
+   extract_namespaces, error!/resolution_error!/type_error!, span_file, the import-collision arm) as re-read from /repo on this run is the reviewed text. *)
 Theorem C15_diag_table : items_eqb GenDiag.diag_items doc_diag_items = true.
 Proof. vm_compute. reflexivity. Qed.
 
@@ -64,29 +64,47 @@ Theorem C15_expect_error_at_current_token : forall c pat msg c' errs,
   pat (token c) = false /\ exists e, errs = [e] /\ se_span e = cspan c /\ se_file e = c_file c.
 Proof. exact expect_error_at_current_token. Qed.
 
-(* ... whose line, while tokens remain, is 1 + the number of newlines before that token ... *)
-Theorem C15_syntax_error_line : forall file file_id s c msg,
-  suffix_of (c_ahead c) (lexed gen_table file_id s) -> c_ahead c <> [] ->
+(* ... whose line is the lexer's line of a token of that file -- the token the parser is looking at, or,
+   at the end of the input, the LAST token of the file (never line 0 in a file that has a token):
+   1 + the number of newline characters before it, for every source. *)
+Theorem C15_syntax_error_line : forall file_id s c msg,
+  ctx_of (lexed gen_table file_id s) c -> lexed gen_table file_id s <> [] ->
   exists tk, In tk (lex gen_table s) /\
     fs_file_id (se_span (syntax_error c msg)) = file_id /\
     line_start (fs_span (se_span (syntax_error c msg)))
       = (1 + N.of_nat (count_nl (firstn (N.to_nat (t_cp0 tk)) s)))%N /\
-    se_file (syntax_error (mkCtx (c_ahead c) (c_skip_newlines c) file file_id) msg) = file.
+    se_file (syntax_error c msg) = c_file c /\
+    (c_ahead c = [] -> exists pre, lex gen_table s = pre ++ [tk]).
 Proof. exact (syntax_error_line gen_table). Qed.
 
-Theorem C15_skip_keeps_suffix : forall n c all, suffix_of (c_ahead c) all -> suffix_of (c_ahead (skip n c)) all.
-Proof. exact skip_keeps_suffix. Qed.
+Theorem C15_skip_keeps_ctx : forall n c all, ctx_of all c -> ctx_of all (skip n c).
+Proof. exact skip_keeps_ctx. Qed.
 
-(* ... and at the end of the input is Span::zero: LINE 0 (a finding: `missing end`, a truncated file). *)
-Theorem C15_eof_span_is_line_zero : forall c, c_ahead c = [] ->
-  token c = "EOF"%string /\ cspan c = zero_span (c_file_id c) /\ line_start (fs_span (cspan c)) = 0%N.
-Proof. exact eof_span_is_line_zero. Qed.
+(* At the end of the input the error carries the span of the last token (missing `end`, a bracket left
+   open in the last statement, a truncated file); Span::zero only for a file without tokens. *)
+Theorem C15_eof_span_is_last_token : forall c all t s,
+  c_ahead c = [] -> c_last c = last_span (all ++ [(t, s)]) ->
+  token c = "EOF"%string /\ cspan c = s.
+Proof. exact eof_span_is_last_token. Qed.
 
-(* outer_statement raises `Not a valid outer statement` with the context after the statement (a finding). *)
-Theorem C15_not_outer_error_is_after_the_statement : forall after c' errs,
-  outer_statement_check after false = PErr c' errs ->
-  exists e, errs = [e] /\ se_span e = cspan after.
-Proof. exact not_outer_error_is_after_the_statement. Qed.
+Theorem C15_empty_file_span_is_zero : forall c, c_ahead c = [] -> c_last c = None ->
+  cspan c = zero_span (c_file_id c) /\ line_start (fs_span (cspan c)) = 0%N.
+Proof. exact empty_file_span_is_zero. Qed.
+
+(* `Not a valid outer statement` is reported AT the statement: the error carries the span of the
+   statement's first token and the file of the context, and that line is the lexer's line of a token. *)
+Theorem C15_not_outer_error_is_at_the_statement : forall at_stmt after c' errs,
+  outer_statement_check at_stmt after false = PErr c' errs ->
+  exists e, errs = [e] /\ se_span e = statement_span at_stmt /\ se_file e = c_file after /\ c' = skip 1 after.
+Proof. exact not_outer_error_is_at_the_statement. Qed.
+
+Theorem C15_not_outer_error_line : forall file_id s at_stmt after c' errs,
+  ctx_of (lexed gen_table file_id s) at_stmt -> lexed gen_table file_id s <> [] ->
+  outer_statement_check at_stmt after false = PErr c' errs ->
+  exists e tk, errs = [e] /\ In tk (lex gen_table s) /\
+    se_span e = cspan (push_skip_newlines false at_stmt) /\
+    line_start (fs_span (se_span e)) = (1 + N.of_nat (count_nl (firstn (N.to_nat (t_cp0 tk)) s)))%N.
+Proof. exact (not_outer_error_line gen_table). Qed.
 
 (* Stated, covered by the oracle: per error kind of the resolver / type checker, the first returned error
    carries the planted file and line. *)
@@ -97,6 +115,12 @@ Definition C15_first_error_at_planted_position_statement := first_error_at_plant
 Example C15_example_conflict :
   conflict_lines [97; 13; 10; 60; 60; 60; 60; 60; 60; 60; 32; 120; 10; 60; 60; 60; 60; 60; 60; 60]%N = [2; 3].
 Proof. vm_compute. reflexivity. Qed.
+
+(* "a :: (1" + newline: at the end of the input the parser's span is that of the last token, line 1. *)
+Example C15_example_eof :
+  let c := initial_context gen_table "main.sy"%string 0 [97; 32; 58; 58; 32; 40; 49; 10]%N in
+  line_start (fs_span (cspan (skip 6 c))) = 1%N /\ c_ahead (skip 6 c) = [].
+Proof. vm_compute. split; reflexivity. Qed.
 
 Local Open Scope string_scope.
 Example C15_example_ids :
@@ -118,6 +142,8 @@ Print Assumptions C15_position_is_file_id.
 Print Assumptions C15_syntax_error_at_current_token.
 Print Assumptions C15_expect_error_at_current_token.
 Print Assumptions C15_syntax_error_line.
-Print Assumptions C15_skip_keeps_suffix.
-Print Assumptions C15_eof_span_is_line_zero.
-Print Assumptions C15_not_outer_error_is_after_the_statement.
+Print Assumptions C15_skip_keeps_ctx.
+Print Assumptions C15_eof_span_is_last_token.
+Print Assumptions C15_empty_file_span_is_zero.
+Print Assumptions C15_not_outer_error_is_at_the_statement.
+Print Assumptions C15_not_outer_error_line.
